@@ -91,6 +91,9 @@ type Call struct {
 	Err    string
 	Note   string
 	Object runtime.Object `json:"-"` // object as passed (after the call for writes)
+	// ambiguous: the fault hook chose "applied, but reported as failed" (a timeout after the server committed the write):
+	// the call is performed and, if it succeeded, this error is returned to the caller instead of nil
+	ambiguous error
 }
 
 // Sig identifies a call independently of its position in the execution.
@@ -112,6 +115,9 @@ func (c Call) String() string {
 
 type World struct {
 	persistent map[string]error // call signature -> error, see AttachFaultsOpt
+	// AmbiguousWrites adds to the fault menu of every API write "500-applied": the write is committed and the caller is
+	// told it failed (what a request timeout after the server's commit looks like)
+	AmbiguousWrites bool
 	Ctx     context.Context
 	Opts    *options.Options
 	Clock   *AutoClock
